@@ -181,7 +181,10 @@ SETTERS = [
     ("tcp", "urgent", "set_urgent", 8, 144, 16, None, False),
 ]
 QUICK_SETTERS = {("eth", "type"), ("vlan", "id"), ("ipv4", "ttl"), ("ipv4", "fragoff"),
-                 ("ipv6", "flowlabel"), ("udp", "len"), ("tcp", "dataoff"), ("tcp", "seq")}
+                 ("ipv6", "flowlabel"), ("udp", "len"), ("tcp", "dataoff"), ("tcp", "seq"),
+                 # the *other* field of every byte/word that two fields share (added with the fourth wave)
+                 ("vlan", "priority"), ("vlan", "dei"), ("ipv4", "flags"), ("ipv4", "dscp"),
+                 ("ipv6", "trafficclass")}
 
 
 def setter_harnesses() -> List[H]:
